@@ -2209,9 +2209,14 @@ unsched(EV_P_ ev_periodic *w, int UNUSED(revents))
 {
 	_task_t t = (void*)w;
 
+	ev_periodic_stop(EV_A_ w);
+	if (UNLIKELY(t->nsim)) {
+		/* children of a previous incarnation of this task are still
+		 * running, the last one's watcher will come back here */
+		return;
+	}
 	ECHS_NOTI_LOG("taking event off of schedule");
 	add_chkpnt(echs_task_owner(t->t));
-	ev_periodic_stop(EV_A_ w);
 	free_task(t);
 	return;
 }
